@@ -299,6 +299,7 @@ pub mod spec {
     pub open spec fn overlay_upto<T>(second: Seq<T>, top: Seq<T>, offset: int, op: spec_fn(T, T) -> T, done: int) -> Seq<T> {
         Seq::new(second.len(), |j: int| if 0 <= j - offset < done && j - offset < top.len() { op(second[j], top[j - offset]) } else { second[j] })
     }
+    pub open spec fn sat_abs(x: i32) -> int { if x == i32::MIN { i32::MAX as int } else if x < 0 { -(x as int) } else { x as int } }
     pub open spec fn in_i32(x: int) -> bool { i32::MIN <= x <= i32::MAX }
     /// two's complement wrap-around of a mathematical integer into i32
     pub open spec fn wrap32(x: int) -> i32 {
